@@ -539,52 +539,63 @@ package kafka
 //@   modifies r.$rpos
 //@   ensures racct(r, sz, result0)
 //@   ensures result1 == nil ==> n <= sz && n >= 0 && result0 == sz - n
+//@   ensures !spec.iskafka(result1)
 //@ func discardInt32
 //@   modifies r.$rpos
 //@   ensures racct(r, sz, result0)
 //@   ensures result1 == nil ==> result0 == sz - 4
+//@   ensures !spec.iskafka(result1)
 //@ func readInt8
 //@   modifies *v, r.$rpos
 //@   ensures racct(r, sz, result0)
 //@   ensures result1 == nil ==> result0 == sz - 1
+//@   ensures !spec.iskafka(result1)
 //@ func readInt16
 //@   modifies *v, r.$rpos
 //@   ensures racct(r, sz, result0)
 //@   ensures result1 == nil ==> result0 == sz - 2
+//@   ensures !spec.iskafka(result1)
 //@ func readInt32
 //@   modifies *v, r.$rpos
 //@   ensures racct(r, sz, result0)
 //@   ensures result1 == nil ==> result0 == sz - 4
+//@   ensures !spec.iskafka(result1)
 //@ func readInt64
 //@   modifies *v, r.$rpos
 //@   ensures racct(r, sz, result0)
 //@   ensures result1 == nil ==> result0 == sz - 8
+//@   ensures !spec.iskafka(result1)
 //@ func readBool
 //@   modifies *v, r.$rpos
 //@   ensures racct(r, sz, result0)
 //@   ensures result1 == nil ==> result0 == sz - 1
+//@   ensures !spec.iskafka(result1)
 //@ func readVarInt
 //@   requires sz >= 0
 //@   modifies *v, r.$rpos
 //@   ensures racct(r, $1, remain)
 //@   ensures err == nil ==> remain < $1
 //@   loop 0 invariant 0 <= sz && sz <= $1 && r.$rpos == old(r.$rpos) + ($1 - sz)
+//@   ensures !spec.iskafka(err)
 //@ func readArrayLen
 //@   modifies *n, r.$rpos
 //@   ensures racct(r, $1, result0)
 //@   ensures result1 == nil ==> result0 == $1 - 4
+//@   ensures !spec.iskafka(result1)
 //@ func readNewBytes
 //@   requires 0 <= sz && sz <= 0xffffffffffff
 //@   option allocbound sz
 //@   modifies r.$rpos
 //@   ensures racct(r, $1, result1)
 //@   ensures result2 == nil ==> result1 == $1 - max($2, 0) && len(result0) == max($2, 0)
+//@   ensures !spec.iskafka(result2)
 //@ func readNewString
 //@   requires 0 <= sz && sz <= 0xffffffffffff
 //@   option allocbound sz
 //@   modifies r.$rpos
 //@   ensures racct(r, sz, result1)
 //@   ensures result2 == nil ==> result1 == sz - max(n, 0)
+//@   ensures !spec.iskafka(result2)
 
 // A readBytesFunc consumes the n bytes of a key or value (n < 0 encodes null: nothing to consume) out of the budget sz.
 //@ functype readBytesFunc
@@ -593,15 +604,17 @@ package kafka
 //@   modifies $0.$rpos
 //@   ensures racct($0, $1, result0)
 //@   ensures result1 == nil ==> result0 == $1 - max($2, 0)
-
+//@   ensures !spec.iskafka(result1)
 //@ func readStringWith
 //@   requires 0 <= sz && sz <= 0xffffffffffff
 //@   modifies r.$rpos
 //@   ensures racct(r, $1, result0)
+//@   ensures !spec.iskafka(result1)
 //@ func readBytesWith
 //@   requires 0 <= sz && sz <= 0xffffffffffff
 //@   modifies r.$rpos
 //@   ensures racct(r, $1, result0)
+//@   ensures !spec.iskafka(result1)
 
 // the callbacks the package itself passes as key/value readers
 //@ func readString$1
@@ -638,18 +651,22 @@ package kafka
 //@   requires 0 <= sz && sz <= 0xffffffffffff
 //@   modifies *v, r.$rpos
 //@   ensures racct(r, sz, result0)
+//@   ensures !spec.iskafka(result1)
 //@ func readBytes
 //@   requires 0 <= sz && sz <= 0xffffffffffff
 //@   modifies *v, r.$rpos
 //@   ensures racct(r, sz, result0)
+//@   ensures !spec.iskafka(result1)
 //@ func discardString
 //@   requires 0 <= sz && sz <= 0xffffffffffff
 //@   modifies r.$rpos
 //@   ensures racct(r, sz, result0)
+//@   ensures !spec.iskafka(result1)
 //@ func discardBytes
 //@   requires 0 <= sz && sz <= 0xffffffffffff
 //@   modifies r.$rpos
 //@   ensures racct(r, sz, result0)
+//@   ensures !spec.iskafka(result1)
 
 // ---- messageSetReader: the reader stack charges every byte it takes to the stack in use ----
 //@ spec msacct(r any) bool
@@ -870,3 +887,36 @@ package kafka
 //@   loop 4 invariant p.conns != nil
 //@   loop 4 invariant forall id int32 :: visited(id) ==> haskey(p.conns, id) && p.conns[id] != nil && fresh(p.conns[id])
 //@   loop 4 after forall id int32 :: haskey(addBrokers, id) ==> haskey(p.conns, id) && p.conns[id] != nil && fresh(p.conns[id])
+
+//@ property C11
+
+// ---- exact consumption of a response frame by the read step of a Conn operation (C11) ----
+// Conn.do keeps the connection when the read step reports a broker error (a kafka.Error): that is only safe if the read
+// step has consumed the whole frame of `size` bytes in that case too, otherwise the next response is read misaligned.
+//@ functype connRead
+//@   requires 0 <= $1 && $1 <= 0xffffffffffff
+//@   ensures (result == nil || spec.iskafka(result)) ==> (&c.rbuf).$rpos == old((&c.rbuf).$rpos) + $1
+//@ func expectZeroSize
+//@   callsite Errorf ensures !spec.iskafka(result)
+//@   assume the error built by expectZeroSize wraps nothing (its format has no %w verb), so it is not a broker error
+//@   ensures err != nil ==> result == err
+//@   ensures err == nil ==> (result == nil) == (sz == 0)
+//@   ensures err == nil && sz != 0 ==> !spec.iskafka(result)
+//@ func readArrayWith
+//@   inline
+//@   loop 0 invariant sz >= 0 && sz <= $1 && r.$rpos == old(r.$rpos) + ($1 - sz) && err == nil
+//@ func (*produceResponsePartitionV2).readFrom
+//@   requires sz >= 0
+//@   modifies *p, r.$rpos
+//@   ensures racct(r, sz, remain)
+//@   ensures err == nil ==> remain == sz - 22
+//@   ensures !spec.iskafka(err)
+//@ func (*produceResponsePartitionV7).readFrom
+//@   requires sz >= 0
+//@   modifies *p, r.$rpos
+//@   ensures racct(r, sz, remain)
+//@   ensures err == nil ==> remain == sz - 30
+//@   ensures !spec.iskafka(err)
+//@ func (*Conn).writeCompressedMessages$2
+//@   option as connRead
+//@   option noframe
